@@ -1371,6 +1371,21 @@ def r_val_sib(E):
                 and _is_change_pair(fn, c.args[0].value.id, c.args[1].id)):
             res.findings.append(Finding("R-VAL-SIB", f"{path} {v} arguments", f"{fn.name} calls {v}({', '.join(args[:2])})",
                                         r, c.lineno, fn.name))
+        if path == "update" and v == "check_belonging_to_authorized_values" and len(c.args) >= 2:
+            # the allowed values depend on the object's other attributes (conditional lists): each new value is checked by
+            # *its own* container, under its own attribute name — not by the container of another value of the batch
+            from ..astutil import view_root as _vr_v, fully_expanded as _fx_v
+            host = _vr_v(c)[0] or fn
+            val = norm(c.args[1])
+            recv = norm(_fx_v(c.func.value, host))
+            name_arg = norm(_fx_v(c.args[0], host))
+            res.instances += 1
+            if recv != f"{val}.modeling_obj_container" or name_arg != f"{val}.attr_name_in_mod_obj_container":
+                res.findings.append(Finding(
+                    "R-VAL-SIB", f"{path} {v} receiver",
+                    f"{fn.name} checks the new value `{val}` with `{recv[:60]}.{v}({name_arg[:50]}, {val}, …)`: the object "
+                    f"asked is not the value's own container (or not under the value's own attribute name), so values are "
+                    f"validated against the conditional lists of another object of the batch", r, c.lineno, fn.name))
         # construction: guarded only by check_input_validity and not for calculated attributes
         if len(res.samples) < 4:
             res.samples.append({"path": path, "function": fn.name, "validator": v, "call": norm(c)[:90]})
